@@ -236,8 +236,64 @@ func runTeardown(w *World, rs *RunSpec) {
 			simrt.Emit(simrt.Event{Kind: EvCheckpoint, S: "late-callers-stalled"})
 		}
 	}
+	// A reconnect loop that has not heard of the Stop: Serve on the stopped
+	// server is refused, and whatever it opened on the way is released again.
+	if fired && t.RevServer != nil && (cause == CauseStop || cause == CauseGracefulThenStop) {
+		lateServe(w, t)
+	}
 	simrt.Emit(simrt.Event{Kind: EvCounter, S: "enum.points", A: int64(points)})
 	w.FullShutdown()
+}
+
+// lateServe calls Serve on a server that has been stopped and records what is
+// left behind once the run has stalled again.
+func lateServe(w *World, t *Tunnel) {
+	simrt.AwaitStall()
+	before := simrt.LiveNonDaemon()
+	ctx, cancel := context.WithCancel(w.RootCtx)
+	defer cancel()
+	done := make(chan struct{})
+	var started bool
+	var err error
+	simrt.Go("late-serve", func() {
+		started, err = t.RevServer.Serve(ctx)
+		simrt.Close(done)
+	})
+	simrt.AwaitStall()
+	returned := false
+	select {
+	case <-done:
+		returned = true
+	default:
+	}
+	after := simrt.LiveNonDaemon()
+	stacks := ""
+	if after > before || !returned {
+		stacks = simrt.LiveStacks()
+	}
+	simrt.Emit(simrt.Event{Kind: EvCheckpoint, S: "late-serve", A: int64(before), B: int64(after), C: b2i(returned), D: b2i(started), S2: errString(err), P: stacks})
+}
+
+// oracleLateServe (evaluated by OracleC04): Serve after Stop returns without
+// having started, and leaves nothing running.
+func oracleLateServe(w *World, h *History, det map[string]string) {
+	for _, e := range h.Evs {
+		if e.Kind != EvCheckpoint || e.S != "late-serve" {
+			continue
+		}
+		h.Derived["probe.serve_after_stop"]++
+		stacks, _ := e.P.(string)
+		if e.C == 0 {
+			w.AddViolation("C10", "serve-after-stop-hangs", "Serve on a stopped reverse tunnel server had not returned when the run stalled\n"+trim(stacks, 3000), det, e.Seq)
+			continue
+		}
+		if e.D != 0 || e.S2 == "" {
+			w.AddViolation("C10", "serve-after-stop-accepted", fmt.Sprintf("Serve on a stopped reverse tunnel server returned started=%v err=%q", e.D != 0, e.S2), det, e.Seq)
+		}
+		if e.B > e.A {
+			w.AddViolation("C14", "refused-serve-leaves-goroutines", fmt.Sprintf("Serve on a stopped reverse tunnel server was refused (%s) but %d more goroutine(s) are alive at the next stall than before the call; what it opened was not released\n%s", e.S2, e.B-e.A, trim(stacks, 3000)), det, e.Seq)
+		}
+	}
 }
 
 // OracleC04: termination reaches both ends, ends every RPC, nothing hangs.
@@ -289,6 +345,7 @@ func OracleC04(w *World, h *History) {
 	}
 	det := map[string]string{"cause": cause, "hol": hol}
 	oracleSibling(w, h, det)
+	oracleLateServe(w, h, det)
 	dd := func(extra ...string) map[string]string {
 		d := map[string]string{}
 		for k, v := range det {
